@@ -7,7 +7,7 @@ Model of `ant-evm/src/data_payments.rs` (`PaymentQuote`, `ProofOfPayment`).
 * Bytes are `Nat`s `< 256`; a timestamp is `(secs, nanos)` since the Unix epoch.
 * The order of the signed parts, the hash parts, every comparator and both constants come from
   `SafeNet.Gen.Quote` (regenerated from the Rust source by `rs2lean`).
-* Signatures are an ideal scheme handed in as a structure (`SigScheme`), keys and peer ids are abstract:
+* Signatures are a scheme handed in as a structure (`SigScheme`), ideal for keys of prime order; keys and peer ids are abstract:
   `decodeKey` is `PublicKey::try_decode_protobuf`, `peerOf` is `PeerId::from`, `decodePeer` is `PeerId::from_bytes`.
 * The clock is a parameter (`now`, nanoseconds since the epoch).
 -/
@@ -75,12 +75,18 @@ def Quote.hashInput (q : Quote) : List Nat :=
 /-- `PaymentQuote::hash`: `evmlib::cryptography::hash` is Keccak-256 (`Base/Sha3.keccak256`) -/
 def Quote.hash (q : Quote) : List Nat := SafeNet.Sha3.keccak256 q.hashInput
 
-/-- An ideal signature scheme: a signature verifies exactly when it is the signer's signature over that
-very message, and signatures of different (key, message) pairs differ (no forgery, no collision). -/
+/-- A signature scheme that is ideal *for keys of prime order* (`strong`): under such a key a signature verifies
+exactly when it is the signer's signature over that very message, and signatures of different (key, message) pairs
+differ (no forgery, no collision). Nothing is assumed about `verify` under a key that is not `strong`: libp2p-identity
+0.2.10 (ed25519-dalek's non-strict `verify`, no `is_weak` test) accepts the eight small-order points of edwards25519
+as public keys, and under the neutral element `(R, S) = (neutral, 0)` verifies for EVERY message (component `quote`,
+tokens `W0` / `Q0`; known finding K-w). -/
 structure SigScheme (Key : Type) where
   sign : Key → List Nat → List Nat
   verify : Key → List Nat → List Nat → Bool
-  ideal : ∀ k m s, verify k m s = true ↔ s = sign k m
+  /-- the key is a point of prime order (not one of the small-order points) -/
+  strong : Key → Bool
+  ideal : ∀ k m s, strong k = true → (verify k m s = true ↔ s = sign k m)
   inj : ∀ k m k' m', sign k m = sign k' m' → k = k' ∧ m = m'
 
 /-- Identities: protobuf decoding of public keys, key → peer id, decoding of an `EncodedPeerId`. -/
